@@ -506,3 +506,67 @@ func (c *Ctx) sharedRoots() []sharedRoot {
 	}
 	return out
 }
+
+// packageVarLiteral: the composite literal a package-level variable is initialised with (nil if none).
+func (c *Ctx) packageVarLiteral(v *types.Var) *ast.CompositeLit {
+	role := c.roleOf(v.Pkg())
+	if role == "" {
+		return nil
+	}
+	info := c.info(role)
+	var lit *ast.CompositeLit
+	for _, f := range c.Pkgs[role].Syntax {
+		for _, d := range f.Decls {
+			gd, ok := d.(*ast.GenDecl)
+			if !ok {
+				continue
+			}
+			for _, sp := range gd.Specs {
+				vs, ok := sp.(*ast.ValueSpec)
+				if !ok {
+					continue
+				}
+				for i, nm := range vs.Names {
+					if info.Defs[nm] == v && i < len(vs.Values) {
+						if l, ok := ast.Unparen(vs.Values[i]).(*ast.CompositeLit); ok {
+							lit = l
+						}
+					}
+				}
+			}
+		}
+	}
+	return lit
+}
+
+// fieldWritesOfVar: assignments to a package-level variable (or to its elements) inside functions.
+func (c *Ctx) fieldWritesOfVar(v *types.Var) []token.Pos {
+	role := c.roleOf(v.Pkg())
+	if role == "" {
+		return nil
+	}
+	info := c.info(role)
+	var out []token.Pos
+	for _, fd := range c.allFuncDecls(role) {
+		if fd.Body == nil {
+			continue
+		}
+		ast.Inspect(fd.Body, func(x ast.Node) bool {
+			as, ok := x.(*ast.AssignStmt)
+			if !ok {
+				return true
+			}
+			for _, l := range as.Lhs {
+				e := ast.Unparen(l)
+				if ix, ok := e.(*ast.IndexExpr); ok {
+					e = ast.Unparen(ix.X)
+				}
+				if id, ok := e.(*ast.Ident); ok && info.Uses[id] == v {
+					out = append(out, as.Pos())
+				}
+			}
+			return true
+		})
+	}
+	return out
+}
